@@ -3,14 +3,13 @@ CONSTANTS
   Svcs = {"a", "b", "c"}
   Cap = 2
   MaxOps = 4
-  MaxFails = 2
-  FixEnqueue = FALSE
-  FixBatch = FALSE
+  MaxFails = 0
+  FixEnqueue = TRUE
+  FixBatch = TRUE
   LossySend = TRUE
   HasKeepalive = TRUE
-  DirectCalls = TRUE
-  MaxMsgLen = 1
+  DirectCalls = FALSE
+  MaxMsgLen = 3
   AsyncApply = FALSE
-INVARIANTS NotW1
-
+INVARIANTS TypeOK InSync SetTracksDeps NoDeadlock
 CHECK_DEADLOCK FALSE
